@@ -48,7 +48,29 @@ def fixed_graph():
     return f()
 
 
+def specstr_store(fmt):
+    """a store whose string property is encoded as docs/specification.md prescribes ("variable length UTF8 strings", the zarr
+    `string` data type), written with the zarr API only"""
+    import zarr
+    from zarr.storage import MemoryStore
+
+    st = MemoryStore()
+    root = zarr.open_group(st, mode="w", zarr_format=fmt)
+    n, e = root.create_group("nodes"), root.create_group("edges")
+    a = n.create_array("ids", shape=(3,), dtype="uint16")
+    a[...] = np.array([5, 600, 7], dtype="uint16")
+    b = e.create_array("ids", shape=(1, 2), dtype="uint16")
+    b[...] = np.array([[5, 7]], dtype="uint16")
+    v = n.create_group("props").create_group("label").create_array("values", shape=(3,), dtype=str)
+    v[...] = np.array(["ab", "", "日本"], dtype=object)
+    root.attrs["geff"] = {"directed": True, "geff_version": "0.5.0", "node_props_metadata": {"label": {"identifier": "label", "dtype": "str"}},
+                          "edge_props_metadata": {}}
+    return st
+
+
 def generate(rng: random.Random, tier: str):
+    for fmt in (2, 3):
+        yield {"kind": "specstr", "fmt": fmt}
     g = fixed_graph()
     for v in variants_all():
         yield {"kind": "converse", "variant": v, **g}
@@ -287,6 +309,21 @@ def run_impl(c):
 
     it = Interner()
     obs = {}
+    if c["kind"] == "specstr":
+        st = specstr_store(c["fmt"])
+        try:
+            validate_structure(st)
+            obs["valid"] = True
+        except Exception as e:
+            obs["valid"], obs["valid_exc"] = False, [exn_name(e), str(e)[:120]]
+        try:
+            back = read_to_memory(st, structure_validation=False)
+            vals = back["node_props"]["label"]["values"]
+            obs["read"] = ["ok"]
+            obs["diff"] = None if [str(x) for x in vals] == ["ab", "", "日本"] and list(back["node_ids"]) == [5, 600, 7] else "values differ"
+        except Exception as e:
+            obs["read"] = ["err", exn_name(e), str(e)[:120]]
+        return obs
     if c["kind"] == "forward":
         st = MemoryStore()
         nids, eids = gg.to_np(c["nids"]), gg.to_np(c["eids"])
@@ -374,6 +411,12 @@ def coq_case(c, o):
 def oracle(c, o):
     if c["kind"] == "keysneg":
         return None  # not a conformant store: the expectations (raw keys = API view; key-level spec reading rejects) are in Corr/C02.v
+    if c["kind"] == "specstr":
+        if not o["valid"] or o["read"][0] != "ok" or o.get("diff"):
+            return Failure(c, slim(o), "a store whose string property is stored as the specification prescribes (variable-length UTF-8, zarr `string`) is "
+                           f"not read as the graph it denotes: validate_structure {'accepts' if o['valid'] else o['valid_exc']}, read {o['read']}",
+                           {"why": "rejects-conformant", "kind": "specstr"})
+        return None
     if "write" in o:
         if any("vlen" in p["values"] and not p["values"]["vlen"] for ps in (c["nprops"], c["eprops"]) if ps for p in ps.values()):
             return None
@@ -396,6 +439,8 @@ def slim(o):
 
 
 def nontrivial(c, o):
+    if c["kind"] == "specstr":
+        return True
     return bool(c["nprops"] or c["eprops"])
 
 
@@ -405,6 +450,8 @@ def extra_coverage():
 
 def describe(c, o):
     v = c.get("variant")
+    if c["kind"] == "specstr":
+        return f"specstr:v{c['fmt']}:{'ok' if o.get('valid') and o.get('read', [''])[0] == 'ok' else 'err'}"
     if c["kind"] == "keysneg":
         return f"keysneg:v{v['fmt']}:{v['wrong']}"
     tag = "fwd:v%d" % c["fmt"] if v is None else f"conv:v{v['fmt']}:ch={v['chunk']}:z={int(v['compress'])}:af={int(v['allfalse'])}:ep={int(v['emptyprops'])}:min={int(v['minimal_md'])}:be={int(v['bigendian'])}:dl={v.get('dlayout', 0)}"
